@@ -183,7 +183,8 @@ class CHECK(Check):
                 n = len(fwd)
                 cur = fwd
                 out.append({"fwd": fwd, "back": back, "first": root, "last": head, "links": links,
-                            "flags": [[l[0] == -1, l[1] == -1] for l in links], "len": n if n < cap else -1})
+                            "flags": [[l[0] == -1, l[1] == -1] for l in links], "len": n if n < cap else -1,
+                            "nested": n * n if n < cap else -1})
             elif op[0] == 5:
                 out.append(r)
             else:
